@@ -9,14 +9,15 @@ META = {
             "the UTF-16 -> UTF-8 loop (single-region round trip with the UTF-8 -> UTF-16 model). Tables and table sizes are generated from "
             "transform.c on every run; the models' executable definitions are compared byte for byte with dispatch_data_create_with_transform on "
             "fragmented inputs; the round-trip statement is evaluated on the real results; a sanitizer build replays the corpus.",
-    "note": "Partial: fragmentation independence of UTF-16 -> UTF-8 and of the encoders' look-back, and 'malformed input is rejected or invertible', are "
-            "covered by the differential run and the oracle only (no theorem yet). Trusted: Lean kernel, generators, harness; ASan for memory safety of the real code.",
+    "note": "Partial: the encoders' look-back across regions and 'malformed input is rejected or invertible' are covered by the differential run and the oracle only (no "
+            "theorem); the UTF-8 -> UTF-16 source-shaped loop is tied to its position-shaped twin by the differential run, the UTF-16 -> UTF-8 one by a theorem (it computes "
+            "the same result and never reads outside). Trusted: Lean kernel, generators, harness; ASan for memory safety of the real code.",
     "technique": "Lean 4 proof (induction over groups / regions, omega, decide over generated tables) + differential run vs the real library + ASan replay",
 }
 
 THEOREMS = ["C20.b64_roundtrip", "C20.b32_roundtrip", "C20.b32hex_roundtrip",
             "C20.b64_fragmentation_independent", "C20.b32_fragmentation_independent", "C20.b32hex_fragmentation_independent",
-            "C20.decoder_writes_in_bounds", "C20.utf8_to_utf16_fragmentation_independent", "C20.utf8_to_utf16_never_reads_outside",
+            "C20.decoder_writes_in_bounds", "C20.utf8_to_utf16_fragmentation_independent", "C20.utf8_to_utf16_never_reads_outside", "C20.utf16_to_utf8_fragmentation_independent", "C20.utf16_to_utf8_source_loop_agrees", "C20.utf16_to_utf8_never_reads_outside", "C20.utf16_to_utf8_source_loop_fragmentation_independent",
             "C20.utf8_utf16_roundtrip_single_region", "C20.surrogates_rejected", "C20.defects_fixed",
             "Tie.b64_tables", "Tie.b32_tables", "Tie.b32hex_tables"]
 
